@@ -187,19 +187,19 @@ impl Board {
         new_rights
     }
 
-    pub fn increment_fullmove_clock(&mut self) -> u8 {
+    pub fn increment_fullmove_clock(&mut self) -> u16 {
         self.move_info.increment_fullmove_clock()
     }
 
-    pub fn decrement_fullmove_clock(&mut self) -> u8 {
+    pub fn decrement_fullmove_clock(&mut self) -> u16 {
         self.move_info.decrement_fullmove_clock()
     }
 
-    pub fn set_fullmove_clock(&mut self, clock: u8) -> u8 {
+    pub fn set_fullmove_clock(&mut self, clock: u16) -> u16 {
         self.move_info.set_fullmove_clock(clock)
     }
 
-    pub fn fullmove_clock(&self) -> u8 {
+    pub fn fullmove_clock(&self) -> u16 {
         self.move_info.fullmove_clock()
     }
 
